@@ -71,7 +71,8 @@ def required_cells(tier):
             "comment-in-literal-continuation", "blank-in-literal-continuation", "nested-include",
             "hash-first-in-literal-continuation", "comment-after-conditional-directive", "selection-inside-included-header",
             "include-of-non-source-extension", "form-feed-in-comment-or-literal", "sentinel:upper-or-mixed-case-prefix", "sentinel:followed-by-ampersand",
-            "fixed:line-longer-than-132-columns", "fixed:c-comment-from-directive-line-to-later-line"]
+            "fixed:line-longer-than-132-columns", "fixed:c-comment-from-directive-line-to-later-line",
+            "fixed:conditional-inside-continued-literal-with-comments", "fixed:c-comment-opener-inside-literal"]
 
 
 def gfortran(args, cwd):
@@ -375,6 +376,15 @@ def fixed_texts():
         body = [f"  s = {lit}", "  ! it's a comment, isn't it", "  call m_8()", "  x = " + " + ".join(["1"] * (n // 4 + 1)) + " ! don't count: it's one",
                 "  ! 'quoted' comment", "  call m_11()", f"  s = {lit} // 'b'  ! tail's", "  ! last one's", "  y = 2"]
         yield "long", "\n".join(PRE + body + POST) + "\n"
+    # a continued character literal interrupted by a conditional, with ordinary full-line comments between the pieces
+    for head, tail in (("  s = \"alpha &", "      &gamma\""), ("  s = 'it''s &", "  &over'"), ("  s = 'a' // \"b &", "&c\" // 'd'")):
+        body = [head, "#ifdef A", "      ! an ordinary comment between the pieces of the literal, isn't it", "      &beta ! inside the literal &", "#endif",
+                "      ! another ordinary comment", "#if B == 1", "   ! a third one: don't count", "#else", "  ! fourth", "#endif", tail, "  call m_%d()" % (len(PRE) + 13)]
+        yield "litdir", "\n".join(PRE + body + POST) + "\n"
+    # literals that hold the opener (and the closer) of a C comment: they are literal text
+    for lits in (("\"src/*.f90\"", "'*/'"), ("'/* not a comment'", "\"still code\""), ("\"a /* b\"", "\"c */ d\"")):
+        body = ["  s = " + lits[0], "#ifdef A", "  call m_%d()" % (len(PRE) + 3), "#endif", "  ! plain comment", "  s = " + lits[1], "  call m_%d()" % (len(PRE) + 7)]
+        yield "litc", "\n".join(PRE + body + POST) + "\n"
     for opener, mid, closer in (("#define X 1 /* start", [" still comment"], " end */"), ("#ifdef A /* why", [" because"], " of this */"),
                                 ("#define Y 2 /* it's", [], " over */"), ("#if B == 1 /* one", [" ! not fortran", " x = 99"], "*/"),
                                 ("#undef X /* gone *", [" * more *"], " */"), ("#define Z /**", ["  call m_0()"], "**/")):
@@ -406,7 +416,8 @@ def run_shard(ctx):
             before = ctx.acc.verdicts["held"] + ctx.acc.verdicts["violated"]
             check_text(ctx, text, work, "F", DEFSETS)
             if ctx.acc.verdicts["held"] + ctx.acc.verdicts["violated"] > before:
-                ctx.acc.cells["fixed:" + ("line-longer-than-132-columns" if kind == "long" else "c-comment-from-directive-line-to-later-line")] += 1
+                ctx.acc.cells["fixed:" + {"long": "line-longer-than-132-columns", "dircom": "c-comment-from-directive-line-to-later-line",
+                                          "litdir": "conditional-inside-continued-literal-with-comments", "litc": "c-comment-opener-inside-literal"}[kind]] += 1
     rng = ctx.rng("random")
     for i in range(b["random"]):
         body = rand_body(rng)
